@@ -218,6 +218,10 @@ def _frame(rows, form, cycles, layout, elements=None):
         idx = None
     elif layout == "named":
         idx = pd.Index([(n - i) * 10 for i in range(n)], name="cycle")
+    elif layout == "repeated":
+        # row labels that repeat (two recordings, each numbered 0..k-1, put one after the other)
+        k = max(1, (n + 1) // 2)
+        idx = pd.Index([i % k for i in range(n)], name="cycle")
     else:
         el = elements or _default_elements(n)
         seen, cyc = {}, []
@@ -842,7 +846,8 @@ def run_shard(shard):
     if kind == "derived":
         for rows in shard[1]:
             nt = any(f != t for f, t in rows)
-            for form, cycles, layout in (("fromto", None, "plain"), ("rangemean", None, "plain"), ("fromto", CYC, "multi"), ("rangemean", CYC, "named")):
+            for form, cycles, layout in (("fromto", None, "plain"), ("rangemean", None, "plain"), ("fromto", CYC, "multi"), ("rangemean", CYC, "named"),
+                                         ("rangemean", CYC, "repeated"), ("fromto", CYC, "repeated")):
                 _run(acc, {"kind": "derived", "rows": rows, "form": form, "cycles": cycles, "layout": layout}, nt)
         acc.sample({"kind": "derived", "first_collective": shard[1][0], "collectives": len(shard[1])})
     elif kind == "scaleshift":
